@@ -265,8 +265,12 @@ def match_finding(prop, failure, findings, predicates):
             return e  # site-wide finding
         pred = predicates.get(e.get("predicate"))
         try:
-            if pred is not None and pred(failure.case):
-                return e
+            if pred is not None:
+                # a predicate may also look at the failure text (narrower than the input alone): pred(case, what)
+                import inspect
+                two = len(inspect.signature(pred).parameters) >= 2
+                if (pred(failure.case, failure.what) if two else pred(failure.case)):
+                    return e
         except Exception:
             continue
     return None
